@@ -266,23 +266,24 @@ func (fr *Frame) builtin(st *State, b *ssa.Builtin, c *ssa.CallCommon, args []Va
 			seen[k] = true
 			key := vc.heapKey(k)
 			h := vc.get(st, key)
-			nh := vc.fresh("h.append."+string(k), heapSort(k))
-			// other objects unchanged
-			vc.assume(st, fmt.Sprintf("(forall ((r!q Int)) (! (=> (not (= r!q %s)) (= (select %s r!q) (select %s r!q))) :pattern ((select %s r!q))))", tgt, nh, h, nh))
+			// the target object gets a new content; every other object is untouched
+			// (functional update: no quantifier over objects)
+			obj := vc.fresh("obj.append."+string(k), "(Array Int "+k.Sort()+")")
+			oldObj := tSel(h, tgt)
 			// in place: everything outside the appended window is unchanged
-			vc.assume(st, tImp(fits, fmt.Sprintf("(forall ((o!q Int)) (! (=> (or (< o!q %s) (>= o!q %s)) (= (select (select %s %s) o!q) (select (select %s %s) o!q))) :pattern ((select (select %s %s) o!q))))", lo, hi, nh, tgt, h, tgt, nh, tgt)))
+			vc.assume(st, tImp(fits, fmt.Sprintf("(forall ((o!q Int)) (! (=> (or (< o!q %s) (>= o!q %s)) (= (select %s o!q) (select %s o!q))) :pattern ((select %s o!q))))", lo, hi, obj, oldObj, obj)))
 			// reallocated: old elements copied element-wise
 			for j, kk := range ek {
 				if kk != k {
 					continue
 				}
-				dst := tSel2(nh, tgt, tAdd(vc.elemOff("0", "i!q", es), tInt(int64(j))))
+				dst := tSel(obj, tAdd(vc.elemOff("0", "i!q", es), tInt(int64(j))))
 				src := tSel2(h, s.S[0], tAdd(vc.elemOff(s.S[1], "i!q", es), tInt(int64(j))))
 				vc.assume(st, tImp(tNot(fits), fmt.Sprintf("(forall ((i!q Int)) (! (=> (and (<= 0 i!q) (< i!q %s)) (= %s %s)) :pattern (%s) :pattern (%s)))", s.S[2], dst, src, dst, src)))
 			}
 			// appended elements
 			if isStr {
-				vc.assume(st, fmt.Sprintf("(forall ((i!q Int)) (! (=> (and (<= 0 i!q) (< i!q %s)) (= (select (select %s %s) %s) (sbyte %s i!q))) :pattern ((sbyte %s i!q))))", addLen, nh, tgt, vc.elemOff(resOff, tAdd(s.S[2], "i!q"), es), add.S[0], add.S[0]))
+				vc.assume(st, fmt.Sprintf("(forall ((i!q Int)) (! (=> (and (<= 0 i!q) (< i!q %s)) (= (select %s %s) (sbyte %s i!q))) :pattern ((sbyte %s i!q))))", addLen, obj, vc.elemOff(resOff, tAdd(s.S[2], "i!q"), es), add.S[0], add.S[0]))
 			} else if cst, ok := constLen(addLen); ok && cst <= 4 {
 				for i := 0; i < cst; i++ {
 					for j, kk := range ek {
@@ -290,7 +291,7 @@ func (fr *Frame) builtin(st *State, b *ssa.Builtin, c *ssa.CallCommon, args []Va
 							continue
 						}
 						src := tSel2(h, add.S[0], tAdd(vc.elemOff(add.S[1], tInt(int64(i)), es), tInt(int64(j))))
-						vc.assume(st, tEq(tSel2(nh, tgt, tAdd(vc.elemOff(resOff, tAdd(s.S[2], tInt(int64(i))), es), tInt(int64(j)))), src))
+						vc.assume(st, tEq(tSel(obj, tAdd(vc.elemOff(resOff, tAdd(s.S[2], tInt(int64(i))), es), tInt(int64(j)))), src))
 					}
 				}
 			} else {
@@ -298,12 +299,12 @@ func (fr *Frame) builtin(st *State, b *ssa.Builtin, c *ssa.CallCommon, args []Va
 					if kk != k {
 						continue
 					}
-					dst := tSel2(nh, tgt, tAdd(vc.elemOff(resOff, tAdd(s.S[2], "i!q"), es), tInt(int64(j))))
+					dst := tSel(obj, tAdd(vc.elemOff(resOff, tAdd(s.S[2], "i!q"), es), tInt(int64(j))))
 					src := tSel2(h, add.S[0], tAdd(vc.elemOff(add.S[1], "i!q", es), tInt(int64(j))))
 					vc.assume(st, fmt.Sprintf("(forall ((i!q Int)) (! (=> (and (<= 0 i!q) (< i!q %s)) (= %s %s)) :pattern (%s) :pattern (%s)))", addLen, dst, src, dst, src))
 				}
 			}
-			vc.set(st, key, nh)
+			vc.set(st, key, tSto(h, tgt, obj))
 		}
 		return res
 	case "delete":
@@ -361,4 +362,98 @@ func constLen(t Term) (int, bool) {
 		}
 	}
 	return n, true
+}
+
+// sort.Slice(x, less): the backing array of x is permuted (a bijection on
+// [0,len)) and afterwards no later element is "less" than an earlier one; the
+// comparator is the caller's closure, expanded from its own SSA under the
+// quantifier (loop-free closures only).
+func init() {
+	sortModel := func(stable bool) modelFn {
+		return func(fr *Frame, st *State, args []Val, rt types.Type) Val {
+			vc := fr.vc
+			ci := vc.closures[args[1].S[0]]
+			if ci == nil || len(findLoops(ci.fn)) > 0 {
+				vc.notes["sort.Slice with an unresolved comparator: treated as unknown code"] = true
+				vc.havocHeap(st)
+				return Val{T: rt}
+			}
+			// the slice value travels boxed inside the interface argument
+			var slt *types.Slice
+			for t, id := range vc.p.typeIDs {
+				_ = t
+				_ = id
+			}
+			sliceT := vc.boxedType[args[0].S[1]]
+			if sliceT == nil {
+				vc.notes["sort.Slice on a value of unknown static type: treated as unknown code"] = true
+				vc.havocHeap(st)
+				return Val{T: rt}
+			}
+			slt = sliceT.Underlying().(*types.Slice)
+			s := vc.loadAt(st, args[0].S[1], args[0].S[2], sliceT)
+			for i := range s.S {
+				s.S[i] = vc.define("sorted", "Int", s.S[i])
+			}
+			vc.assume(st, vc.wellTyped(st, s))
+			es := vc.p.lay.size(slt.Elem())
+			vc.n++
+			perm := fmt.Sprintf("perm!%d", vc.n)
+			inv := fmt.Sprintf("pinv!%d", vc.n)
+			vc.decls = append(vc.decls, fmt.Sprintf("(declare-fun %s (Int) Int)", perm), fmt.Sprintf("(declare-fun %s (Int) Int)", inv))
+			old := st.clone()
+			vc.havocTargets(st, []modTarget{{kind: "obj", ref: s.S[0]}})
+			ln := s.S[2]
+			// perm is a bijection of the integers that maps [0,len) onto itself
+			// (unguarded inverse laws: they merge terms instead of creating new ones)
+			vc.assume(st, fmt.Sprintf("(forall ((i!q Int)) (! (and (= (%s (%s i!q)) i!q) (= (and (<= 0 i!q) (< i!q %s)) (and (<= 0 (%s i!q)) (< (%s i!q) %s)))) :pattern ((%s i!q))))", inv, perm, ln, perm, perm, ln, perm))
+			vc.assume(st, fmt.Sprintf("(forall ((i!q Int)) (! (and (= (%s (%s i!q)) i!q) (= (and (<= 0 i!q) (< i!q %s)) (and (<= 0 (%s i!q)) (< (%s i!q) %s)))) :pattern ((%s i!q))))", perm, inv, ln, inv, inv, ln, inv))
+			for j, k := range vc.p.lay.of(slt.Elem()).Kinds {
+				hn := vc.get(st, vc.heapKey(k))
+				ho := vc.get(old, vc.heapKey(k))
+				dst := tSel2(hn, s.S[0], tAdd(vc.elemOff(s.S[1], "i!q", es), tInt(int64(j))))
+				src := tSel2(ho, s.S[0], tAdd(vc.elemOff(s.S[1], sx(perm, "i!q"), es), tInt(int64(j))))
+				vc.assume(st, fmt.Sprintf("(forall ((i!q Int)) (! (=> (and (<= 0 i!q) (< i!q %s)) (= %s %s)) :pattern (%s)))", ln, dst, src, dst))
+				// and the other way round: every old element sits at inv(i)
+				srcO := tSel2(ho, s.S[0], tAdd(vc.elemOff(s.S[1], "i!q", es), tInt(int64(j))))
+				dstO := tSel2(hn, s.S[0], tAdd(vc.elemOff(s.S[1], sx(inv, "i!q"), es), tInt(int64(j))))
+				vc.assume(st, fmt.Sprintf("(forall ((i!q Int)) (! (=> (and (<= 0 i!q) (< i!q %s)) (= %s %s)) :pattern (%s)))", ln, srcO, dstO, srcO))
+				// everything of the array outside the slice window is unchanged
+				lo := vc.elemOff(s.S[1], "0", es)
+				hi := vc.elemOff(s.S[1], ln, es)
+				vc.assume(st, fmt.Sprintf("(forall ((o!q Int)) (! (=> (or (< o!q %s) (>= o!q %s)) (= (select (select %s %s) o!q) (select (select %s %s) o!q))) :pattern ((select (select %s %s) o!q))))", lo, hi, hn, s.S[0], ho, s.S[0], hn, s.S[0]))
+			}
+			// ordered: for i < j, not less(j, i)
+			vc.n++
+			bi, bj := fmt.Sprintf("q!%d_i", vc.n), fmt.Sprintf("q!%d_j", vc.n)
+			vc.inQuant++
+			saveQuiet := vc.quiet
+			vc.quiet = true
+			scratch := st.clone()
+			scratch.pc = tTrue
+			res, ok := func() (r Val, ok bool) {
+				defer func() {
+					if rec := recover(); rec != nil {
+						if _, isU := rec.(unsupported); isU {
+							ok = false
+							return
+						}
+						panic(rec)
+					}
+				}()
+				r, ok = vc.inlineCall(scratch, ci.fn, []Val{{T: tyInt, S: []Term{bj}}, {T: tyInt, S: []Term{bi}}}, ci.bindings, fr.depth+1)
+				return
+			}()
+			vc.quiet = saveQuiet
+			vc.inQuant--
+			if ok && len(res.S) == 1 {
+				vc.assume(st, fmt.Sprintf("(forall ((%s Int) (%s Int)) (=> (and (<= 0 %s) (< %s %s) (< %s %s)) (not %s)))", bi, bj, bi, bi, bj, bj, ln, res.S[0]))
+			} else {
+				vc.notes["sort.Slice comparator could not be expanded: only the permutation is known"] = true
+			}
+			return Val{T: rt}
+		}
+	}
+	models["sort.Slice"] = sortModel(false)
+	models["sort.SliceStable"] = sortModel(true)
 }
